@@ -162,6 +162,10 @@ def mval(model, x):
     return [mval(model, c) for c in x.c]
   if isinstance(x, tuple):
     return tuple(mval(model, c) for c in x)
+  if isinstance(x, list):
+    return [mval(model, c) for c in x]
+  if isinstance(x, dict):
+    return {k: mval(model, c) for k, c in x.items()}
   if not is_sym(x):
     return x
   v = model.eval(x, model_completion=True)
